@@ -79,6 +79,12 @@ func main() {
 		timed("timed", func() {
 			c.Cases("timed-"+tag, n(32, 1200, 8, 200), func(i int, r *vlib.Rand) { timedCase(c, kind, i, r) })
 		})
+		timed("timed-multi", func() {
+			c.Cases("timed-multi-"+tag, n(96, 2400, 24, 400), func(i int, r *vlib.Rand) { timedMultiCase(c, kind, i, r) })
+		})
+		timed("volume", func() {
+			c.Cases("volume-"+tag, n(16, 160, 4, 24), func(i int, r *vlib.Rand) { volumeCase(c, kind, i, r) })
+		})
 	}
 	// Clock-correction phase (tdelta.go). dateutil.SetDelta is process-global, so this is a
 	// sequential phase of its own, after everything else; every case restores delta 0.
@@ -124,6 +130,9 @@ func main() {
 		c.Floor("lin_histories_with_overlap", 20, c.Counter("lin_histories_with_overlap"))
 		c.Floor("wake_returns_after_put", 30, c.Counter("wake_returns_after_put"))
 		c.Floor("timed_gets", 4, c.Counter("timed_gets"))
+		c.Floor("timedmulti_cases", 3, c.Counter("timedmulti_cases"))
+		c.Floor("timedmulti_empty_returns", 3, c.Counter("timedmulti_empty_returns"))
+		c.Floor("volume_cases", 1, c.Counter("volume_cases"))
 		c.Floor("cd_cases", 10, c.Counter("cd_cases"))
 		c.Floor("tdelta_gets", 30, c.Counter("tdelta_gets"))
 	}
